@@ -205,7 +205,7 @@ def parse_ser_content(ty, text, dto):
     attr_items = None
     m = ATTRS_FN.fullmatch(norm(text))
     if m:
-        # `fn serialize_content … { … }` followed by `fn attributes(&self) -> Vec<(&str, &str)> { vec![…] }` (since 1dc4ea8)
+        # `fn serialize_content … { … }` followed by `fn attributes(&self) -> Vec<(&str, &str)> { vec![…] }` (since 680006e)
         text, attr_items = m.group(1), parse_attributes_fn(ty, m.group(2))
     elif "fn attributes" in text:
         fail(f"xml: SerializeContent for {ty}: unrecognised `fn attributes`")
@@ -353,7 +353,7 @@ def parse_de_content(ty, text, dto):
     if body == "Ok(Self {})":
         return ("struct", [])
     # let mut x: Option<T> = None; …  d.for_each_element(|d, x| match x { arms _ => Err(..), })?; Ok(Self { … })
-    # since 1dc4ea8 a member bound to an attribute is `let x: Option<T> = d.attribute("tag")?.map(T::from);` — only
+    # since 680006e a member bound to an attribute is `let x: Option<T> = d.attribute("tag")?.map(T::from);` — only
     # here, in the `let` block in front of `for_each_element` (the model relies on it: `Deserializer::attribute`
     # looks at the start tag that was entered last)
     p = 0
